@@ -136,6 +136,18 @@ Qed.
 
 End Desc.
 
+(* ------------------------------------------------------ one-for-one descent *)
+(* the type object [o] descends from the source's type [t]: same attributes,
+   and its members are those of [t], one for one and in order, each with the
+   (renamed) attributes of its source and with the source's arguments, one
+   for one and in order *)
+Definition tfull (src : oid -> option obj) (g : str -> str) (M : mem) (n : str) (o t : oid) : Prop :=
+  exists k d ms ifs r ds ms' ifs',
+    src t = Some (OType n k d ms ifs r ds) /\ mget M o = Some (OType n k d ms' ifs' r ds) /\
+    Forall2 (fun s y => desc src g M y s /\
+                        Forall2 (fun sa a => desc src g M a sa) (sargs src s) (oargs M y)) ms ms'.
+
+
 (* the three kinds of memory steps of the development keep member objects *)
 Lemma ext_keepm tm M M' : ext tm M M' -> keepm M M'.
 Proof.
@@ -240,20 +252,12 @@ Proof. intros He. apply desc_keep. apply (ext_keepm tm). exact He. Qed.
 Lemma mdesc_keepE a b y t : ext tm a b -> mdesc src g a y t -> mdesc src g b y t.
 Proof. intros He. apply mdesc_keep. apply (ext_keepm tm). exact He. Qed.
 
-Lemma heal_field_desc m x s m' r :
-  inv tm m -> mdesc src g m x s -> visit_field (heal_visitor tm) m x = Some (m', r) ->
-  inv tm m' /\ ext tm m m' /\ (forall y, r = Some y -> mdesc src g m' y s).
+Lemma heal_base_field_desc m x s m2 ro :
+  inv tm m -> mdesc src g m x s -> base_field (heal_visitor tm) m x = Some (m2, ro) ->
+  inv tm m2 /\ ext tm m m2 /\ exists y, ro = Some y /\ mdesc src g m2 y s.
 Proof.
-  intros Hi Hd H.
-  change (visit_field (heal_visitor tm) m x)
-    with (match base_field (heal_visitor tm) m x with
-          | None => None
-          | Some (m2, None) => Some (m2, None)
-          | Some (m2, Some o2) => heal_member tm m2 o2
-          end) in H.
-  destruct (base_field (heal_visitor tm) m x) as [[m2 ro]|] eqn:Hb; [|discriminate].
-  assert (Hbase : inv tm m2 /\ ext tm m m2 /\ exists y, ro = Some y /\ mdesc src g m2 y s).
-  { unfold base_field in Hb. destruct (mget m x) as [v|] eqn:Hv; [|discriminate].
+  intros Hi Hd Hb.
+  unfold base_field in Hb. destruct (mget m x) as [v|] eqn:Hv; [|discriminate].
     destruct v as [|nf py ty args d dp rs sb ds| | |]; try discriminate.
     assert (Hargs : subseq (desc src g m) args (sargs src s)).
     { destruct Hd as [_ Ha]. unfold oargs in Ha. rewrite Hv in Ha. exact Ha. }
@@ -277,8 +281,22 @@ Proof.
         exists vs, (OField nf py ty1 args' d dp rs sb ds). split; [assumption|]. split; [exact Hy|]. split.
         * destruct vs; simpl in Hc; try contradiction. simpl. exact Hc.
         * eapply tylk_fwd; [intros o n; apply (ext_tname tm); exact He2|]. eapply tylk_oty; [|exact Hl]. reflexivity.
-      + unfold oargs. rewrite Hy. eapply subseq_impl; [|exact Hq1]. intros a b. apply desc_keepE. exact He2. }
-  destruct Hbase as (Hi2 & He2 & y & -> & Hy).
+      + unfold oargs. rewrite Hy. eapply subseq_impl; [|exact Hq1]. intros a b. apply desc_keepE. exact He2. 
+Qed.
+
+Lemma heal_field_desc m x s m' r :
+  inv tm m -> mdesc src g m x s -> visit_field (heal_visitor tm) m x = Some (m', r) ->
+  inv tm m' /\ ext tm m m' /\ (forall y, r = Some y -> mdesc src g m' y s).
+Proof.
+  intros Hi Hd H.
+  change (visit_field (heal_visitor tm) m x)
+    with (match base_field (heal_visitor tm) m x with
+          | None => None
+          | Some (m2, None) => Some (m2, None)
+          | Some (m2, Some o2) => heal_member tm m2 o2
+          end) in H.
+  destruct (base_field (heal_visitor tm) m x) as [[m2 ro]|] eqn:Hb; [|discriminate].
+  destruct (heal_base_field_desc _ _ _ _ _ Hi Hd Hb) as (Hi2 & He2 & y & -> & Hy).
   destruct (heal_member_desc (mdesc src g) _ _ _ _ _ (fun a b y0 t K => mdesc_keep src g a b y0 t K) Hi2 Hy H) as (Hi' & He & Hr).
   split; [assumption|]. split; [eapply ext_trans; eauto|]. exact Hr.
 Qed.
